@@ -10,3 +10,12 @@ pub open spec fn HALF() -> int { 0x7fff_ffff_ffff_ffff }
 
 pub open spec fn max_int(a: int, b: int) -> int { if a >= b { a } else { b } }
 pub open spec fn min_int(a: int, b: int) -> int { if a <= b { a } else { b } }
+
+/// R2 wrapper: `V.extend(core::iter::repeat(Z).take(N))`.  ENV-1: returning normally implies the
+/// allocation succeeded, hence the new length is within the address space.
+#[verifier::external_body]
+pub fn verif_vec_extend_repeat(v: &mut Vec<u8>, z: u8, n: usize)
+    ensures final(v)@ == old(v)@ + Seq::new(n as nat, |i: int| z), env_slice(final(v)@)
+{
+    v.extend(core::iter::repeat(z).take(n))
+}
